@@ -462,7 +462,7 @@ set_option linter.unusedSimpArgs false
 /-- the two cell-type constants the checks compare with are the model's. -/
 theorem c11_src_cell_types :
     (Generated.cellTypeMerkleProof : Int) = kMerkleProof ∧ (Generated.cellTypeMerkleUpdate : Int) = kMerkleUpdate := by
-  simp only [Generated.cellTypeMerkleProof, Generated.cellTypeMerkleUpdate, kMerkleProof, kMerkleUpdate]; src_prop
+  simp only [Generated.cellTypeMerkleProof, Generated.cellTypeMerkleUpdate, kMerkleProof, kMerkleUpdate] <;> src_prop
 
 /-- the four tests of `check_proof`, for ALL values: wrong cell type; stored hash `data[1:33]` differs; the child's
 level-0 hash differs; and the "malformed" test = not exactly one reference, or not exactly 280 bits, or the data is not
@@ -476,11 +476,11 @@ theorem c11_src_proof_tests (ty : Int) (refs bits d0 : Nat) (data h h0 : Bytes) 
     Generated.proofMalformed refs bits data h d0 = (refs != 1 || bits != 280 || data != [3] ++ h ++ natToBE 2 d0) := by
   refine ⟨by simp only [Generated.proofWrongType_sideOk], by simp only [Generated.proofWrongStoredHash_sideOk],
     by simp only [Generated.proofWrongChildHash_sideOk], ?_, ?_, ?_, ?_, ?_⟩
-  · intro hd; simp only [Generated.proofMalformed_sideOk]; src_prop
-  · simp only [Generated.proofWrongType, Generated.cellTypeMerkleProof, kMerkleProof]; src_bool
-  · simp only [Generated.proofWrongStoredHash]; src_bool
-  · simp only [Generated.proofWrongChildHash]; src_bool
-  · simp only [Generated.proofMalformed]; src_bool
+  · intro hd; simp only [Generated.proofMalformed_sideOk] <;> src_prop
+  · simp only [Generated.proofWrongType, Generated.cellTypeMerkleProof, kMerkleProof] <;> src_bool
+  · simp only [Generated.proofWrongStoredHash] <;> src_bool
+  · simp only [Generated.proofWrongChildHash] <;> src_bool
+  · simp only [Generated.proofMalformed] <;> src_bool
 
 /-- `check_proof` of the hand model (what `c11_complete`, `c11_sound_shape`, `c11_sound` … are proved about) decides with
 exactly the regenerated source tests, in the order of the code; a child depth without 2-byte encoding is a rejection
@@ -537,8 +537,8 @@ theorem c11_src_header_tests (ty : Int) (rh bh data sh : Bytes) :
     Generated.hdrStateUncommitted ty Generated.cellTypeMerkleUpdate data sh =
       (ty != kMerkleUpdate || pySlice data 33 65 != sh) := by
   refine ⟨⟨by simp only [Generated.hdrWrongHash_sideOk], by simp only [Generated.hdrStateUncommitted_sideOk]⟩, ?_, ?_⟩
-  · simp only [Generated.hdrWrongHash]; src_bool
-  · simp only [Generated.hdrStateUncommitted, Generated.cellTypeMerkleUpdate, kMerkleUpdate]; src_bool
+  · simp only [Generated.hdrWrongHash] <;> src_bool
+  · simp only [Generated.hdrStateUncommitted, Generated.cellTypeMerkleUpdate, kMerkleUpdate] <;> src_bool
 
 /-- `check_block_header_proof` of the hand model decides with exactly the regenerated tests. -/
 theorem c11_src_header (root : PCell) (blockHash : Bytes) :
@@ -576,13 +576,13 @@ theorem c11_src_account_tests (n : Nat) (wc : Int) (same : Bool) (h0 sh ah : Byt
     by simp only [Generated.acctWrongAccount_sideOk], by simp only [Generated.shardSame_sideOk],
     by simp only [Generated.shardNotMasterchain_sideOk], by simp only [Generated.shardWrongRootCount_sideOk],
     by simp only [Generated.shardStateMismatch_sideOk]⟩, ?_, ?_, ?_, ?_, ?_, ?_, ?_⟩
-  · simp only [Generated.acctWrongRootCount]; src_bool
-  · simp only [Generated.acctStateMismatch]; src_bool
-  · simp only [Generated.acctWrongAccount]; src_bool
-  · simp only [Generated.shardSame]; src_bool
-  · simp only [Generated.shardNotMasterchain]; src_bool
-  · simp only [Generated.shardWrongRootCount]; src_bool
-  · simp only [Generated.shardStateMismatch]; src_bool
+  · simp only [Generated.acctWrongRootCount] <;> src_bool
+  · simp only [Generated.acctStateMismatch] <;> src_bool
+  · simp only [Generated.acctWrongAccount] <;> src_bool
+  · simp only [Generated.shardSame] <;> src_bool
+  · simp only [Generated.shardNotMasterchain] <;> src_bool
+  · simp only [Generated.shardWrongRootCount] <;> src_bool
+  · simp only [Generated.shardStateMismatch] <;> src_bool
 
 /-- `check_account_proof` of the hand model (what `c11_account_sound`, `c11_account_complete` … are proved about) decides
 with exactly the regenerated tests, in the order of the code. -/
